@@ -156,7 +156,9 @@ def shards(tier):
         else:
             for sh in explore.strings_shards(SIGMA_S, b['s_chars'], 1):
                 out.append(dict(cfg=name, alpha='S', **sh))
-            for sh in explore.strings_shards(UNITS_S, b['s_units'], 1):
+            # without cache every call converts the whole snippet table (7 ms): the full unit bound only for the deep configurations
+            su = b['s_units'] if name in DEEP_STYLE_CONFIGS else b['s_units'] - 1
+            for sh in explore.strings_shards(UNITS_S, su, 1):
                 out.append(dict(cfg=name, alpha='US', **sh))
             for sh in explore.strings_shards(SIGMA_S, b['s_chars_cached'], 1):
                 if not sh.get('short'):
@@ -165,7 +167,7 @@ def shards(tier):
             deep = name in DEEP_STYLE_CONFIGS
             for sh in explore.strings_shards(UNITS_S, b['s_units_cached'] if deep else b['s_units_cached'] - 1, 1):
                 if not sh.get('short'):
-                    out.append(dict(cfg=name, alpha='US', cached=True, minlen=b['s_units'] + 1, **sh))
+                    out.append(dict(cfg=name, alpha='US', cached=True, minlen=su + 1, **sh))
     for name in P:
         if name.startswith('m:'):
             for sh in explore.strings_shards(SIGMA_M, b['pairs'], 1):
